@@ -333,3 +333,5 @@ V("c12-default-subtrie-true", "C12", BN, "    def _set(self, node_hash, keypath,
 V("c14-default-key-size", "C14", SM, "    def __init__(self, key_size: int = 32, default: bytes = BLANK_NODE):", "    def __init__(self, key_size: int = 20, default: bytes = BLANK_NODE):", rule="DEFAULTS")
 V("c12-byte0-wrong", "C12", "trie/constants.py", "BYTE_0 = bytes([0])", "BYTE_0 = bytes(0)", rule="DEFAULTS")
 V("c01-default-prune", "C01", HX, "    def __init__(self, db, root_hash=BLANK_NODE_HASH, prune=False, ref_count=None):", "    def __init__(self, db, root_hash=BLANK_NODE_HASH, prune=True, ref_count=None):", rule="DEFAULTS")
+V("c01-lru-cached-get-node", "C01", HX, "    def get_node(self, node_hash):\n        if node_hash == BLANK_NODE:", "    @functools.lru_cache(1024)\n    def get_node(self, node_hash):\n        if node_hash == BLANK_NODE:", rule="RSRC")
+V("c14-calc-root-start", "C14", SM, "    node_hash = keccak(value)\n    for sibling_node in reversed(branch):", "    node_hash = keccak(value or key)\n    for sibling_node in reversed(branch):", rule="SIB5")
